@@ -1017,6 +1017,7 @@ PROPS = {
         "lean_module": ["Keto.Props.C03", "Keto.Proofs.FactsTie"],
         "theorems": ["Keto.FactsTie.readCallShapes_tie", "Keto.C03_no_allow_pos", "Keto.C03_single_error_never_allowed", "Keto.C03_invert_keeps_error",
                      "Keto.C03_and_error_not_member", "Keto.C03_error_never_member", "Keto.C03_checkIsMember_true",
+                     "Keto.C03_fault_answer_exact_all", "Keto.C03_fault_independent_all",
                      "Keto.build_err_not_member"],
         "streams": [{"name": "engine-c03", "n": {"quick": 150, "thorough": 1500}, "oracle": oracle_c03, "thorough_seeds": 3}],
         "rule": ENGINE_RULE + "; for every generated case the k-th storage call fails for every k up to min(N,14), transiently and persistently; and each case is re-run with one stored row at a time made undecodable, so that the queries that fetch it fail while rows are scanned (a fault below the Manager/Traverser interface)",
@@ -1024,8 +1025,11 @@ PROPS = {
         "assumptions": [],
     },
     "C01": {
-        "lean_module": ["Keto.Props.C01", "Keto.Props.C01complete", "Keto.Props.C01ref", "Keto.Props.C01neg"],
-        "theorems": ["Keto.tr_fa_exclusive", "Keto.refEval_sound_all", "Keto.refEval_complete_all", "Keto.refEval_decides",
+        "lean_module": ["Keto.Props.C01", "Keto.Props.C01complete", "Keto.Props.C01ref", "Keto.Props.C01neg", "Keto.Props.C01exact"],
+        "theorems": ["Keto.C01_exact_all", "Keto.C01_exact_all_iff", "Keto.C01_exact_all_refEval", "Keto.C01_exact_all_engine",
+                     "Keto.C01_sound_all", "Keto.C01_complete_all", "Keto.C01_open_not_answered", "Keto.C01_exact_limit_counterexample",
+                     "Keto.C01_not_stratified_not_answered", "Keto.build_exact",
+                     "Keto.tr_fa_exclusive", "Keto.refEval_sound_all", "Keto.refEval_complete_all", "Keto.refEval_decides",
                      "Keto.refEval_fuel_independent", "Keto.tr_iff_mem_pos", "Keto.tr_of_mem_all", "Keto.fa_not_mem",
                      "Keto.C01_engine_iff_tr_pos", "Keto.refEval_not_stratified_bad",
                      "Keto.refEval_sound_pos", "Keto.refEval_complete_pos", "Keto.refEval_iff_Mem_pos", "Keto.C01_engine_eq_ref_pos",
@@ -1035,7 +1039,7 @@ PROPS = {
         "streams": [{"name": "engine-c01", "n": {"quick": 250, "thorough": 3000}, "oracle": oracle_c01, "thorough_seeds": 3},
                     {"name": "engine-wide", "n": {"quick": 10, "thorough": 80}, "oracle": oracle_c01, "thorough_seeds": 2}],
         "rule": ENGINE_RULE,
-        "partial": "exactness of the ENGINE MODEL (allowed iff member) is proved for configurations without '!' (Mem, the positive least fixpoint; = Tr), in default mode and in strict mode on stores that conform to the declared types. For configurations with '!' the semantics is the stratified one (Tr / Fa, Keto/Spec/Stratified.lean: strictly positive mutual inductives, proved mutually exclusive); the executable reference evaluator refEval is proved sound and complete against it for ALL configurations (refEval = t implies Tr, = f implies Fa, bad only for non-stratified instances such as p = !p), and the implementation is compared with refEval on every generated case whose limits are not binding - the engine model's exactness against Tr/Fa under '!' is not proved. Schedules: the sequential checkgroup semantics is proved to be what the concurrent group computes (C15_cg_*), and every fourth case also runs with the real concurrent group",
+        "partial": "exactness of the engine model is proved for ALL configurations, '!' included (C01_exact_all: no error and no limit event anywhere in the run imply isMember iff Tr, otherwise Fa; Tr/Fa = the stratified semantics of Keto/Spec/Stratified.lean, proved mutually exclusive, equal to Mem on the positive fragment), in default mode and in strict mode on stores that conform to the declared types; the executable reference evaluator used as run-time oracle is proved sound and complete against the same semantics (refEval_decides) and the engine model is proved to agree with it whenever it answers (C01_exact_all_refEval); on non-stratified instances (p = !p) neither Tr nor Fa holds and the engine cannot finish without error or limit event (C01_open_not_answered). What remains sampled, not proved: that the Go code is the model (correspondence streams), and goroutine schedules - the sequential checkgroup semantics is proved to be what the concurrent group computes (C15_cg_*), and every fourth case also runs with the real concurrent group",
         "assumptions": [],
     },
     "C02": {
